@@ -189,6 +189,46 @@ def shared_objects_unit():
     return Unit("C12.shared_definition_objects", h, bounds={"models": 2, "processes": 3}, max_paths=5)
 
 
+def bundled_unit():
+    """One event bundling several transitions with MIXED magnitudes (2X -> Y: X loses 2, Y gains 1; Z -> 3Y), the
+    transitions listed in every order inside the event, against the same process set as single-transition events and as
+    explicit ODE terms: the order of transitions inside an event is a route too."""
+    def h(c):
+        from pygom import SimulateOde, Transition, Event
+        from pygom.model import ode_utils
+        env = {s_: c.real("x_" + s_) for s_ in STATES}
+        env["t"] = c.real("t")
+        for p_ in PARAMS:
+            env[p_] = c.real("th_" + p_)
+        x = [env[s_] for s_ in STATES]
+        th = [env[p_] for p_ in PARAMS]
+        r1, r2 = V("a") * V("X") * V("X"), V("b") * V("Z")
+        f_ref = [expr.ev(e, env) for e in (-2 * r1, r1 + 3 * r2, -r2)]
+
+        def mk(kind):
+            tl1 = [Transition(origin="X", transition_type="D", magnitude="2"), Transition(destination="Y", transition_type="B")]
+            tl2 = [Transition(origin="Z", transition_type="D"), Transition(destination="Y", transition_type="B", magnitude="3")]
+            if kind == "reversed":
+                tl1, tl2 = tl1[::-1], tl2[::-1]
+            if kind in ("listed", "reversed"):
+                return SimulateOde(state=list(STATES), param=list(PARAMS), event=[Event(rate="a*X*X", transition_list=tl1), Event(rate="b*Z", transition_list=tl2)])
+            if kind == "single":
+                return SimulateOde(state=list(STATES), param=list(PARAMS),
+                                   event=[Event(rate="a*X*X", transition_list=[t_]) for t_ in tl1] + [Event(rate="b*Z", transition_list=[t_]) for t_ in tl2])
+            return SimulateOde(state=list(STATES), param=list(PARAMS),
+                               ode=[Transition(origin="X", equation="-2*a*X*X", transition_type="ODE"), Transition(origin="Y", equation="a*X*X + 3*b*Z", transition_type="ODE"),
+                                    Transition(origin="Z", equation="-b*Z", transition_type="ODE")])
+        for kind in ("listed", "reversed", "single", "ode"):
+            m = mk(kind)
+            m._SC = ode_utils.compileCode(backend="lambda")
+            m.parameters = th
+            eq = m.get_ode_eqn()
+            label = "[bundled events with mixed magnitudes, %s]" % kind
+            c.prove(all_close([s2z.s2z(eq[i], env) for i in range(3)], f_ref, c), "%s get_ode_eqn == the process set's ODE" % label)
+            c.prove(all_close(m.ode(x, env["t"]), f_ref, c), "%s ode(x,t) identical" % label)
+    return Unit("C12.bundled_events_mixed_magnitudes", h, bounds={"events": 2, "transitions_per_event": 2, "orders": "both"}, max_paths=5)
+
+
 def all_variants(routes_table=None):
     routes_table = routes_table or ROUTES
     out = []
@@ -210,7 +250,8 @@ class C12(Check):
                    "get_ode_eqn (sympy->SMT), ode and jacobian evaluators are proved equal to ONE oracle for all (x,t,theta) -- hence equal to "
                    "each other -- and the rate vector equal up to the ordering of events.  The vector-state range declaration ('y1:4') is "
                    "covered by C01's vector_states member.  One unit builds TWO models from the same Event/Transition objects (derived parameter of the same "
-                   "name defined differently; first model evaluated first): each must be the model of its own definition.")
+                   "name defined differently; first model evaluated first): each must be the model of its own definition; one unit bundles transitions with mixed "
+                   "magnitudes into one event, in both orders, against single-transition events and explicit ODE terms.")
     assumptions = ["legacy transition=/birth_death= routes carry magnitude 1 (the legacy converters rebuild the Transition without it); non-unit magnitudes (2, symbolic g, 3) are checked on every route that carries a magnitude: Event objects, rate-carrying Transitions given to event=/add_event, hand-written ODE terms", "lambdify back-end"]
 
     def units(self, tier, seed):
@@ -224,6 +265,7 @@ class C12(Check):
         us = [variant_unit(ch, i) for i, ch in enumerate(chunks(va, 16 if tier == "quick" else 48))]
         us += [variant_unit(ch, i, mag=True) for i, ch in enumerate(chunks(vm, 16 if tier == "quick" else 48))]
         us.append(shared_objects_unit())
+        us.append(bundled_unit())
         return us
 
     def extra(self, tier, seed):
